@@ -76,3 +76,17 @@ def _block_and_item_names(name: str, item: str) -> bool:
     """
     d = {name: {item: "v", item + "_l": ["p", "q"]}}
     return _rt(d) == d
+
+
+def _block_name_line(name: str) -> bool:
+    """
+    pre: 1 <= len(name) <= 12
+    pre: all(c in "adt_Xb1-." for c in name)
+    post: _
+    """
+    # the unit that reads a block header, on the line the writer emits for that name
+    c = Cif({})
+    c.content_lines = ["data_" + name]
+    c.line_index = 0
+    c.parse_data_block_name()
+    return c.current_data_block_name == name
